@@ -117,7 +117,7 @@ def submission():
     return Submission(files=files, main_file='answer.py', main_code=BASE)
 ENTRIES = ['run', 'call', 'evaluate']
 SCHEDULES = ['caller-first', 'student-first', 'student-during-next', 'student-never']
-FOLLOWUPS = [['call-say', 'run-slow'], ['run-print', 'run-slow'], ['evaluate-say', 'call-ask'], ['call-ask', 'run-slow', 'call-say'], ['run-slow', 'run-print'], []]
+FOLLOWUPS = [['run-exit-threaded', 'run-print'], ['call-say', 'run-slow'], ['run-print', 'run-slow'], ['evaluate-say', 'call-ask'], ['call-ask', 'run-slow', 'call-say'], ['run-slow', 'run-print'], []]
 LIMITS = [0.1, 0.2]
 REACHES_HANDLER = {'spin', 'spin_print', 'swallow_exception', 'writer', 'import_spin', 'import_spin_print'}
 
@@ -151,6 +151,12 @@ def do_followup(sb, name, sync=None):
         # always a callable input source (no prompt echo), so that the forced-schedule variant and the reference agree
         sb.set_input(sync if sync is not None else (lambda prompt: 'typed'))
         r = sb.call('ask')
+    elif name == 'run-exit-threaded':
+        # a later execution, again in its own thread, that ends through sys.exit(): it is an ordinary execution, not an abandoned one
+        sb.threaded = True
+        sb.allowed_time = 5
+        sb.run("import sys\nprint('leaving')\nresult_value = 3\nsys.exit(3)\n", filename='answer.py')
+        r = sb.data.get('result_value')
     elif name == 'run-slow':
         # long enough (tens of ms) for a still-running abandoned thread to get the GIL and write into this capture
         sb.run("acc = 0\nfor i in range(400000):\n    acc += i % 7\nprint('slow', acc)\nresult_value = acc\n", filename='answer.py')
@@ -212,7 +218,7 @@ def judge(case):
     release_caller = threading.Event()
     student_in_handler = threading.Event()
     student_done = threading.Event()
-    state = {'student_thread': None, 'harness_wait': 0.0}
+    state = {'student_thread': None, 'harness_wait': 0.0, 'phase': 'call', 'abandoned_threads': set()}
 
     def callback(point):
         t_in = _time.time()
@@ -224,6 +230,8 @@ def judge(case):
 
     def _callback(point):
         me = threading.current_thread()
+        if point == 'student_exit_handler' and me is not main_thread and state['phase'] != 'call' and me not in state['abandoned_threads']:
+            return      # the thread of a later (threaded) follow-up execution that ends through sys.exit(): not the abandoned one
         if point == 'student_exit_handler' and me is not main_thread:
             state['student_thread'] = me
             student_in_handler.set()
@@ -254,6 +262,8 @@ def judge(case):
     except BaseException as e:
         T.set_verif_callback(None)
         return Result([V('C14|escapes:%s' % type(e).__name__, '%s(%s) schedule=%s raised %r into the grader' % (entry, kind, schedule, e))], True, classes)
+    state['abandoned_threads'] = {t for t in threading.enumerate() if t is not main_thread}
+    state['phase'] = 'followups'
     elapsed = _time.time() - t0 - state['harness_wait']
     desc = '%s(%s) limit=%s schedule=%s' % (entry, kind, limit, schedule)
     if elapsed > limit + 30:
@@ -298,6 +308,7 @@ def judge(case):
         except BaseException as e:
             viol.append(V('C14|followup-raises|%s|%s' % (schedule, cellk), '%s: follow-up %s raised %r' % (desc, name, e)))
             break
+        state['followups_done'] = i + 1
         want = expected[i]
         if got != want:
             field = next(k for k in want if got.get(k) != want[k])
@@ -323,7 +334,9 @@ def judge(case):
                           % (desc, exception_name())))
         new = runtime_feedback()[before:]
         names = [f.fields.get('exception_name') for f in new if f.fields.get('exception_name') in ('TimeoutError', 'SystemExit')]
-        if names != ['TimeoutError']:
+        # every 'run-exit-threaded' follow-up that ran legitimately reports its own SystemExit
+        own_exits = ['SystemExit'] * sum(1 for n in followups[:state.get('followups_done', 0)] if n == 'run-exit-threaded')
+        if names != ['TimeoutError'] + own_exits:
             viol.append(V('C14|feedback-after-handler|%s|%s' % (schedule, cellk), '%s: runtime feedback for the timed-out execution after the abandoned thread ran '
                                                                                'its handler: %r' % (desc, names)))
         if kind in REACHES_HANDLER and (sb._current_patches or sb._current_stdout):
